@@ -17,7 +17,7 @@ TECHNIQUE = 'property-based testing: model-checked copy step, then independence 
 LEVEL_TEXT = 'exploration: generated (source, target, copy operation, follow-up history) cases; faithfulness via the independent model, source-unchanged and two-way independence by comparing full observations after every later step'
 RULE = (
     "case = (data flavour in {str with explicit ids, objects keyed by a calc_data_id callback, objects keyed by a "
-    "subclass override}, plain/typed, source tree with clones, target tree, one copy operation out of {Tree.copy(), "
+    "subclass override, objects on a forward_attrs tree, tuples / frozen dataclasses (the target then holds equal but distinct objects)}, plain/typed, source tree with clones, target tree, one copy operation out of {Tree.copy(), "
     "Node.copy(add_self), Tree.copy_to(target, deep), Node.copy_to(other-tree target, add_self, before, deep), "
     "target.add(node, deep, before), target.add(tree, before, deep), the shortcuts append_child / prepend_child / prepend_sibling / append_sibling(tree)}, then a mutation history (rename/set_data, add, "
     "remove, move, sort, meta, clear ...) on the copy side or on the source side). Oracle: faithful (copies are new "
@@ -35,7 +35,7 @@ ASSUMPTIONS = [
     "independence concerns tree structure, ids, kinds, data references and metadata; the shared data objects themselves are shared by design",
 ]
 
-FLAVS = ["str", "obj_cb", "obj_sub", "obj_fwd"]
+FLAVS = ["str", "obj_cb", "obj_sub", "obj_fwd", "tuple", "dc"]
 
 
 def snap(tree, u):
@@ -250,7 +250,18 @@ def hyp_cases(draw, tier):
     explicit = flavour == "str"
     opts = gen.node_opts(explicit_ids=explicit, kinds=typed, meta=True)
     spec = draw(gen.forest_specs(max_nodes=12, max_depth=4, max_width=4, min_nodes=1, alphabet=gen_ops.LABELS, opts=opts))
-    spec_t = draw(gen.forest_specs(max_nodes=8, max_depth=3, max_width=3, min_nodes=draw(st.sampled_from([0, 1, 3])), alphabet=gen_ops.LABELS + ["t1", "t2"], opts=gen.node_opts(explicit_ids=explicit, kinds=typed)))
+    spec_t = draw(gen.forest_specs(max_nodes=8, max_depth=3, max_width=3, min_nodes=draw(st.sampled_from([0, 1, 3])), alphabet=gen_ops.LABELS + ["t1", "t2"], opts=gen.node_opts(explicit_ids=explicit, kinds=typed, fresh=flavour in ("tuple", "dc"))))
+    if flavour in ("tuple", "dc"):
+        # every node of the target holds its own, value-equal copy of the data object the source tree uses
+        def all_fresh(nodes):
+            for nd in nodes:
+                o = dict(nd[2]) if len(nd) > 2 and nd[2] else {}
+                o["fresh"] = True
+                del nd[2:]
+                nd.append(o)
+                all_fresh(nd[1])
+
+        all_fresh(spec_t)
     if explicit:
         gen.localize_ids(spec, gen_ops.LABELS)
         gen.fix_sibling_ids(spec)
